@@ -69,7 +69,7 @@ def gen_defn(rng, tier, wraps=None):
         d["large"] = True
         return d
     d = gen.program(rng, n_sensor=(0, 0), depth=depth, cpp_safe=False,
-                    dt_names=("dt", "dt", "T_s", "h_step"), wraps=wraps)
+                    dt_names=("dt", "dt", "T_s", "h_step"), wraps=wraps, int_calibration=True)
     if rng.random() < 0.25:
         # the definition-time option of ui.Model that rewrites the expressions before compilation
         d["proactive_simplify"] = True
@@ -130,6 +130,8 @@ def run_unit(unit, ctx):
         R.stats.inc("programs_with_proactive_simplify")
     if defn.get("large"):
         R.stats.inc("large_programs")
+    if defn.get("integer_calibration"):
+        R.stats.inc("programs_with_integer_only_calibration")
     fp = gen.fingerprint(defn)
     R.fps_all.append(fp)
     if gen.nontrivial_program(defn):
